@@ -23,6 +23,12 @@ var Root = func() string {
 	if r := os.Getenv("VERIF_ROOT"); r != "" {
 		return r
 	}
+	// <root>/bin/vcheck: a snapshot of /verif run elsewhere keeps to itself
+	if exe, err := os.Executable(); err == nil {
+		if d := filepath.Dir(exe); filepath.Base(d) == "bin" {
+			return filepath.Dir(d)
+		}
+	}
 	return "/verif"
 }()
 
